@@ -40,6 +40,38 @@ def gen(rng, tier):
                 continue
             opts = dict(genrun.DEFAULT_OPTS, parse_bad_pkts=bad, yield_unrecognized=unrec, headers_only=hdr)
             cases.append({"doc": doc, "opts": opts, "packets": [p.hex() for p in pkts]})
+    # one calibrated field decoded packet after packet through the SAME definition objects, its raw value moving between the
+    # knots of a step spline and their neighbours (inside an interval, then exactly on the next knot, and back): anything an
+    # encoding / calibrator object remembers from the previous packet would show
+    import docs
+    for _ in range(6 if tier == "quick" else 150):
+        knots = sorted(rng.sample(range(2, 250), rng.choice([3, 4])))
+        pts = [[docs.fnum(float(x)), docs.fnum(float(10 * i) + 0.5)] for i, x in enumerate(knots)]
+        order = rng.choice([0, 0, 1])
+        spline = ["spline", order, rng.random() < 0.7, pts]
+        ctx = None
+        if rng.random() < 0.5:
+            ctx = [{"criteria": [["cmp", {"ref": "SEQ_FLGS", "op": "==", "lit": str(rng.randrange(4)), "cal": False}]],
+                    "cal": ["spline", 0, True, [[docs.fnum(float(x)), docs.fnum(float(-i) - 0.25)] for i, x in enumerate(knots)]]}]
+        params = {}
+        for n, w in defgen.HDR:
+            params[n] = {"name": n, "type": defgen.int_type(n, w)}
+        params["K"] = {"name": "K", "type": defgen.int_type("K", 8, default=spline, context=ctx)}
+        doc = {"params": params, "root": "CCSDSPacket",
+               "containers": [{"name": "CCSDSPacket", "entries": [["p", n] for n, _ in defgen.HDR] + [["p", "K"]], "abstract": False, "base": None,
+                               "criteria": [], "inheritors": []}]}
+        raws = []
+        for _j in range(rng.randrange(5, 10)):
+            i = rng.randrange(len(knots))
+            raws.append(min(255, max(0, knots[i] + rng.choice([-1, 0, 0, 1]))))
+        # make sure "inside an interval, then exactly the next knot" occurs
+        i = rng.randrange(len(knots) - 1)
+        raws += [knots[i] + 1 if knots[i] + 1 < knots[i + 1] else knots[i], knots[i + 1], knots[i]]
+        pkts = []
+        for j, v in enumerate(raws):
+            hdr = (rng.randrange(4) << 30) | ((j & 0x3FFF) << 16) | 0
+            pkts.append(hdr.to_bytes(6, "big") + bytes([v]))
+        cases.append({"doc": doc, "opts": dict(genrun.DEFAULT_OPTS), "packets": [p.hex() for p in pkts]})
     return cases
 
 
